@@ -502,7 +502,7 @@ def _z(x):
         return x.e
     if isinstance(x, SBool):
         return z3.If(x.e, 1, 0)
-    if isinstance(x, (SBuf, SStr)):
+    if isinstance(x, (SBuf, SStr)) or type(x) is SFloat:
         return None
     if isinstance(x, bool):
         return z3.IntVal(int(x))
@@ -530,7 +530,7 @@ def mk_bool(e):
 
 
 def is_sym(x):
-    return isinstance(x, (SInt, SBool, SBuf, SStr))
+    return isinstance(x, (SInt, SBool, SBuf, SStr)) or type(x) is SFloat
 
 
 def has_sym(x):
@@ -623,8 +623,8 @@ class SInt(object):
     def _bin(self, o, f):
         z = _z(o)
         if z is None:
-            if isinstance(o, float):
-                raise Unsupported('float arithmetic on symbolic int (%r)' % (o,))
+            if isinstance(o, float) or type(o) is SFloat:
+                return SFloat()
             return NotImplemented
         return mk_int(f(self.e, z))
 
@@ -689,10 +689,14 @@ class SInt(object):
         return (self // o, self % o)
 
     def __truediv__(self, o):
-        raise Unsupported('true division on symbolic int')
+        if isinstance(o, (int, float)) and not is_sym(o) and o == 0:
+            raise ZeroDivisionError('division by zero')
+        return SFloat()
 
     def __rtruediv__(self, o):
-        raise Unsupported('true division by symbolic int')
+        if not bool(self != 0):
+            raise ZeroDivisionError('division by zero')
+        return SFloat()
 
     def __pow__(self, o):
         if isinstance(o, int) and 0 <= o <= 4:
@@ -846,6 +850,46 @@ class SInt(object):
     def value(self):
         # IntEnum / IntFlag compatibility (scapy FlagValue uses .value on ints it wraps)
         return self
+
+
+class SFloat(object):
+    ''' Opaque result of float arithmetic on symbolic ints: every operation yields another opaque
+    value and int() of it is an arbitrary integer (sound over-approximation; comparisons unsupported). '''
+
+    @property
+    def __class__(self):
+        return float
+
+    def _op(self, *a):
+        return SFloat()
+    __add__ = __radd__ = __sub__ = __rsub__ = __mul__ = __rmul__ = _op
+    __truediv__ = __rtruediv__ = __neg__ = __pos__ = __abs__ = _op
+
+    def _cmp(self, o):
+        raise Unsupported('comparison of an opaque float')
+    __lt__ = __le__ = __gt__ = __ge__ = __eq__ = __ne__ = _cmp
+    __hash__ = None
+
+    def __bool__(self):
+        raise Unsupported('truth of an opaque float')
+
+    def __float__(self):
+        raise Unsupported('float() of an opaque float')
+
+    def __int__(self):
+        raise Unsupported('int() builtin of an opaque float (uninstrumented call site)')
+
+    def havoc_int(self):
+        c = cur()
+        v = z3.Int(c.fresh('havoc'))
+        c.inputs.append((str(v), v, 'int'))
+        return SInt(v)
+
+    def __repr__(self):
+        return 'SFloat(?)'
+
+    def __format__(self, spec):
+        return '<sym-float>'
 
 
 def _bv_op(a, b, f, width=64):
